@@ -13,7 +13,7 @@ TECH = "bounded model checking of the real code: Kani 0.68 harnesses (kani::any 
 CLAIMS = {
     "C01": (
         "Completeness is only partly decided in this round, on the real code: the signer's authentication path is the sibling rule for every leaf of trees of height 5..25 (tree nodes by contract), the HSS expansion + signing structure for a tall one-level shape with every counter symbolic (LMS layer by contract), the top-level seed derivation hashes only the seed's n bytes (keygen and a reloaded key agree), and the parser accepts everything a key with the maximum level count produces.",
-        'NOT decided here: LM-OTS sign/verify agreement (the transcript harnesses abort in CBMC and are unregistered), the LMS verify walk, multi-level end-to-end runs, real SHA-256/SHAKE256 digests. The 8-level signing defect was found by a native run and repaired (0f30f77).',
+        'LM-OTS: signer and verifier hash the same Q pre-image I|q|0x8181|C|message and the candidate pre-image is I|q|0x8080|.. of length 22+pn (first/last-query recorder); NOT decided: the digit-driven chain positions of sign vs verify (those transcript harnesses abort in CBMC and are unregistered), the LMS verify walk, multi-level end-to-end runs, real SHA-256/SHAKE256 digests. The 8-level signing defect was found by a native run and repaired (0f30f77).',
         "DESIGN.md sections 3 and 8.3 C01", 'LMS-layer / tree-node contract stubs; Rec transcripts'),
     "C02": (
         'Structural half of RFC 8554 verification, for every input inside the shape bounds: hss::verify::verify on arbitrary parsed signature structures against arbitrary public keys accepts only if level counts, all type codes and leaf ranges are consistent (digests are havoc so a missing check cannot hide behind a hash mismatch), and the parsers map exact-shape byte strings to exactly the RFC fields at the RFC offsets and reject +-1 byte.',
@@ -38,7 +38,7 @@ CLAIMS = {
         "DESIGN.md section 3 C06", ""),
     "C07": (
         'Tables and lengths against the RFC formulas for all 12 (n,w) x 6 heights; serialisation layout of LMS public keys and signatures for arbitrary field contents; coef = RFC coef; the default chain loop hashes I|q|u16(i)|u8(j)|prev for a symbolic 16-bit chain index; randomizer derivation; authentication path = sibling rule for every leaf.',
-        'The LM-OTS signing content (Q pre-image, chain i iterated a_i times) is NOT decided: those transcript harnesses abort in CBMC and are unregistered. Deviating checksum shifts for three (n,w) pairs are reported under C12 (known findings).',
+        'The Q pre-image I|q|0x8181|C|message (signer = verifier) and the candidate pre-image I|q|0x8080|.. are decided through a first/last-query recorder; that chain i is iterated exactly a_i times is NOT decided (those transcript harnesses abort in CBMC and are unregistered). Deviating checksum shifts for three (n,w) pairs are reported under C12 (known findings).',
         "DESIGN.md sections 3 and 8.3 C07", 'Rec transcripts'),
     "C08": (
         "Key blob layout / nibble packing / round trip for every parameter list (1..8 levels, all W x H), seed and counter; HSS public key layout; derivation transcripts against the hash-sigs layout: top-seed hashing (three 55-byte queries, only the seed's n bytes), child seed/identifier and randomizer (55-byte PRNG block), x_q[i] for p <= 18 chains, K = H(I|q|0x8080|y..) (thorough), chain step layout.",
